@@ -68,5 +68,32 @@ PROPS["C03"] = dict(
                  "'promptly' is decided on state (parked forever) not on wall-clock; watchdog expiry alone is inconclusive"],
 )
 
+PROPS["C02"] = dict(
+    bin="race", level="exploration", shards={"quick": 16, "thorough": 16},
+    timeout={"quick": 900, "thorough": 3000},
+    rule=("frame sequences from the generator (GOPs of key + P pictures, 1-3 slices per picture, in-band parameter sets none / separate / "
+          "aggregated with the first IDR slice / aggregated SPS+PPS packet, SEI, interleaved AAC and RTCP) packetised as single NAL, "
+          "STAP-A/AP and FU-A/FU; (1) sequential: one consumer joins after exactly k packets for EVERY k of every sequence; (2) forced "
+          "orderings of one publish with one join through gates at join.begin/snapshotted/registered and write.cached/sent, cache on/off; "
+          "(3) seeded-delay stress of several joins racing a running publisher. cache_gop on and off, H.264 and H.265. A case is distinct "
+          "by its sequence shape / forced ordering / join-window size"),
+    level_text=("Reference-model monitor: for every join the received sequence must be P ++ G ++ L for some cut inside the join window "
+                "(computed by a reference cache model from the generator's ground truth); exhaustive in the join position, schedule "
+                "enumeration for the publish x join race"),
+    level_note=("RTP-level consumers through media.Stream; the FLV variant (header tags re-stamped) is checked in C08's join part. Audio/RTCP inside the "
+                "replayed GOP is allowed, not demanded"),
+    technique="runtime monitoring: reference cache model over recorded deliveries; exhaustive join positions; hook-gated interleavings; seeded stress",
+    assumptions=["generator flags (which packet carries SPS/PPS/VPS, which starts a key picture) are the ground truth"],
+)
+
+# checks whose texts are kept as JSON (props_json/<ID>.json)
+import json as _json, os as _os, glob as _glob
+for _f in sorted(_glob.glob(_os.path.join(_os.path.dirname(_os.path.abspath(__file__)), "props_json", "C*.json"))):
+    _d = _json.load(open(_f))
+    _id = _os.path.basename(_f)[:-5]
+    _d.setdefault("shards", {"quick": 16, "thorough": 16})
+    _d.setdefault("timeout", {"quick": 900, "thorough": 3000})
+    PROPS[_id] = _d
+
 # properties not claimed, with the reason (kept current)
 NOT_APPLICABLE = {}
